@@ -46,6 +46,13 @@ def replay(doc):
         out["raised"] = "%s: %s" % (type(e).__name__, e)
         out["traceback"] = traceback.format_exc()[-1500:]
         result = None
+        allowed = con.raises.get(type(e).__name__) if doc.get("kind") != "safety" else None
+        if allowed is not None and doc.get("clause") == "allowed-when":
+            env["old"] = env["old"] if isinstance(env.get("old"), C.Old) else old
+            ok = True if allowed is True else bool(call_by_name(allowed, env))
+            out["clause_value"] = ok
+            out["confirmed"] = not ok
+            return out, 1 if not ok else 0
         if doc.get("kind") == "safety":
             want = doc.get("exception")
             out["confirmed"] = (want is None) or any(c.__name__ == want for c in type(e).__mro__)
